@@ -71,18 +71,20 @@ type histRun struct {
 	rcs   map[*WSClient]*RefClient
 	res   *HistResult
 	// maybePending[conn][rid]: a request touching rid may be unanswered
-	maybePending map[int]map[string]bool
-	reqTarget    map[int]map[uint64]string // call/new requests → target rid
-	stepNo       int
-	callSeq      int
-	closedAt     map[int]int64 // clock when a client was closed
-	tokenSeq     int
-	resets       int
-	fatal        bool
-	seenViol     map[string]bool
-	qpoints      []int64
-	finalClosed  map[int]bool
-	tokens       map[int][]tokenSet
+	maybePending  map[int]map[string]bool
+	reqTarget     map[int]map[uint64]string // call/new requests → target rid
+	stepNo        int
+	callSeq       int
+	closedAt      map[int]int64 // clock when a client was closed
+	tokenSeq      int
+	resets        int
+	fatal         bool
+	seenViol      map[string]bool
+	qpoints       []int64
+	finalClosed   map[int]bool
+	tokens        map[int][]tokenSet
+	tokenResets   []tokenReset
+	tokenResetSeq int
 }
 
 func (h *histRun) logf(format string, a ...interface{}) {
@@ -579,6 +581,21 @@ func (h *histRun) step() {
 		}
 	case "reset":
 		h.reset()
+	case "tokenreset":
+		h.tokenResetSeq++
+		var tids []string
+		for i := 0; i < 1+r.Intn(2); i++ {
+			if r.Chance(70) {
+				tids = append(tids, fmt.Sprintf("tid%d", r.Intn(h.cfg.Conns)))
+			} else {
+				tids = append(tids, fmt.Sprintf("alt%d", r.Intn(3)))
+			}
+		}
+		subj := fmt.Sprintf("auth.t.renew%d", h.tokenResetSeq)
+		b, _ := json.Marshal(map[string]interface{}{"tids": tids, "subject": subj})
+		h.logf("system.tokenReset %s", b)
+		h.tokenResets = append(h.tokenResets, tokenReset{T: h.g.Clock.Tick(), TIDs: tids, Subject: subj})
+		h.g.Bus.Event("system.tokenReset", b, nil)
 	case "disconnect":
 		if c == nil || len(clients) < 2 {
 			return
@@ -596,12 +613,20 @@ func (h *histRun) step() {
 		if r.Chance(10) {
 			tv = "null"
 		}
-		tok := fmt.Sprintf(`{"token":%s,"tid":"tid%d"}`, tv, c.Idx)
+		tid := fmt.Sprintf("tid%d", c.Idx)
+		if r.Chance(15) {
+			tid = fmt.Sprintf("alt%d", r.Intn(3))
+		}
+		tok := fmt.Sprintf(`{"token":%s,"tid":"%s"}`, tv, tid)
+		if r.Chance(25) {
+			tid = ""
+			tok = fmt.Sprintf(`{"token":%s}`, tv)
+		}
 		h.logf("conn=%d token %s", c.Idx, tok)
 		if h.tokens == nil {
 			h.tokens = map[int][]tokenSet{}
 		}
-		h.tokens[c.Idx] = append(h.tokens[c.Idx], tokenSet{T: h.g.Clock.Tick(), Token: canonJSON(tv)})
+		h.tokens[c.Idx] = append(h.tokens[c.Idx], tokenSet{T: h.g.Clock.Tick(), Token: canonJSON(tv), TID: tid})
 		h.g.Bus.Event("conn."+c.CID+".token", []byte(tok), nil)
 	}
 }
@@ -716,6 +741,7 @@ func (h *histRun) finish(ok bool) *HistResult {
 	if ok && res.Inconclusive == "" {
 		h.checkC03()
 		h.checkBoundary()
+		h.checkTokenResets()
 	}
 	res.Counters = verifhook.Counters()
 	res.Notes = verifhook.Notes()
